@@ -46,17 +46,6 @@ def inexactDests (mesgNum : Nat) : List Nat :=
   | some (_, fs) => (fs.flatMap allComps).filterMap fun c =>
       if rowExact c (createField profile mesgNum c.fieldNum).1 then none else some c.fieldNum
 
-/-- destination field numbers reachable from the fields present (transitively), any sub-field -/
-def destClosure (mesgNum : Nat) (present : List Nat) : List Nat :=
-  let step (ds : List Nat) : List Nat :=
-    (ds ++ (ds.flatMap fun n => match lookup profile mesgNum n with
-      | some f => (allComps f).map (·.fieldNum)
-      | none => [])).eraseDups
-  let seeds := (present.flatMap fun n => match lookup profile mesgNum n with
-      | some f => (allComps f).map (·.fieldNum)
-      | none => []).eraseDups
-  step (step (step (step seeds)))
-
 def elemsOf (v : Value) : Option (List Nat) :=
   match Fit.ScaleOffset.scalarOf v with
   | some (_, p) => some [p]
@@ -85,7 +74,7 @@ def checkMsg (wire impl spec off : Message) : Option String :=
     | none =>
       -- expansion off = on minus expanded fields; wire fields that are not destinations are untouched
       let kept := impl.fields.filter (!·.isExpanded)
-      let dests := destClosure wire.num (wire.fields.filterMap fieldNum)
+      let dests := destsPresent profile wire.num wire.fields
       if kept.length != off.fields.length then some "off-count"
       else match (kept.zip off.fields).find? fun p =>
           !(p.1 == p.2 || (p.1.base == p.2.base && (match fieldNum p.1 with | some n => dests.contains n | none => false))) with
@@ -153,7 +142,7 @@ def hExpandX : Handler := fun r =>
           let dig (out : List Message) : String :=
             s!"n={out.length} digest={hexN 16 (out.foldl (fun d m => fnvStr d (printMessage m ++ "\n")) fnvInit).toNat}"
           -- the rows the container can feed are all integer-preserving: the specification's output is unique
-          let unique := (destClosure t.num (t.fields.filterMap fieldNum)).all fun n => !(inexactDests t.num).contains n
+          let unique := (destsPresent profile t.num t.fields).all fun n => !(inexactDests t.num).contains n
           match r.mode with
           | .model => dig (modelOn ms)
           | .spec => if unique then (match specOn ms with | some out => dig out | none => "n/a") else "n/a"
